@@ -89,6 +89,7 @@ type guardState struct {
 	single map[*types.Var]ast.Expr // locals assigned exactly once, with initialiser
 	// resolve, when set (path enumeration), maps a boolean local to the facts of its current symbolic value
 	resolve func(id *ast.Ident, pol bool) ([]string, bool)
+	prog    *Program // for looking through boolean predicate helpers (may be nil)
 }
 
 func mayReturn(info *types.Info) func(*ast.CallExpr) bool {
@@ -128,7 +129,7 @@ func (p *Program) Guards(f *FuncSrc, conf *GuardConfig) *guardState {
 	if gs, ok := guardCache[key]; ok {
 		return gs
 	}
-	gs := &guardState{f: f, conf: conf, info: f.Pkg.TypesInfo, g: p.CFG(f), paths: map[string][]string{}, caseOf: map[*ast.CaseClause]ast.Stmt{}, single: map[*types.Var]ast.Expr{}}
+	gs := &guardState{prog: p, f: f, conf: conf, info: f.Pkg.TypesInfo, g: p.CFG(f), paths: map[string][]string{}, caseOf: map[*ast.CaseClause]ast.Stmt{}, single: map[*types.Var]ast.Expr{}}
 	gs.prepare()
 	gs.solve()
 	gs.solveImplications()
@@ -393,6 +394,13 @@ func (gs *guardState) condFacts(cond ast.Expr, pol bool, depth int) []string {
 			}
 			return out
 		}
+	case *ast.CallExpr:
+		// a call of a boolean predicate helper whose body is `return <expr over its parameters>`:
+		// the facts of that expression, with the parameters replaced by the argument paths
+		if fs, ok := gs.predicateFacts(c, pol, depth); ok {
+			out = append(out, fs...) // their access paths were recorded by predicateFacts
+			// the opaque fact about the call itself is kept as well (below)
+		}
 	case *ast.Ident:
 		if gs.resolve != nil {
 			if fs, ok := gs.resolve(c, pol); ok {
@@ -422,6 +430,95 @@ func (gs *guardState) condFacts(cond ast.Expr, pol bool, depth int) []string {
 		add(fFalse(s), cond)
 	}
 	return out
+}
+
+// predicateFacts looks through a statically resolved predicate `func p(a, b ..) bool { return E }`.
+func (gs *guardState) predicateFacts(call *ast.CallExpr, pol bool, depth int) ([]string, bool) {
+	if gs.prog == nil || depth > 2 {
+		return nil, false
+	}
+	fn, _ := typeutil.Callee(gs.info, call).(*types.Func)
+	if fn == nil {
+		return nil, false
+	}
+	src := gs.prog.SrcOpt(fn)
+	if src == nil || src.Decl == nil || src.Decl.Recv != nil || src.Body == nil || len(src.Body.List) != 1 {
+		return nil, false
+	}
+	ret, ok := src.Body.List[0].(*ast.ReturnStmt)
+	if !ok || len(ret.Results) != 1 || !isBoolType(src.Pkg.TypesInfo, ret.Results[0]) {
+		return nil, false
+	}
+	sig := fn.Type().(*types.Signature)
+	if sig.Variadic() || sig.Params().Len() != len(call.Args) {
+		return nil, false
+	}
+	subst := map[string]string{}
+	qsubst := map[string]string{}
+	for i := 0; i < sig.Params().Len(); i++ {
+		pth, ok := selectorPath(gs.info, call.Args[i])
+		qp, ok2 := qualPath(gs.info, call.Args[i])
+		if !ok || !ok2 {
+			return nil, false
+		}
+		subst[sig.Params().At(i).Name()] = pth
+		qsubst[sig.Params().At(i).Name()] = qp
+	}
+	tmp := &guardState{prog: gs.prog, f: src, info: src.Pkg.TypesInfo, paths: map[string][]string{}, single: map[*types.Var]ast.Expr{}}
+	var out []string
+	for _, f := range tmp.condFacts(ret.Results[0], pol, depth+1) {
+		if strings.HasPrefix(f, "BT:") || strings.HasPrefix(f, "BF:") {
+			continue
+		}
+		i := strings.Index(f, ":")
+		nf := f[:i+1] + substIdents(f[i+1:], subst)
+		out = append(out, nf)
+		if _, ok := gs.paths[nf]; !ok {
+			// the callee's parameter-rooted access paths, re-rooted at the arguments
+			var ps []string
+			for _, cp := range tmp.paths[f] {
+				root, rest := cp, ""
+				if k := strings.Index(cp, "."); k >= 0 {
+					root, rest = cp[:k], cp[k:]
+				}
+				if q, ok := qsubst[stripQual(root)]; ok {
+					ps = append(ps, q+rest)
+				}
+			}
+			for _, a := range call.Args {
+				ps = append(ps, accessPaths(gs.info, a)...)
+			}
+			gs.paths[nf] = ps
+		}
+	}
+	return out, true
+}
+
+// substIdents replaces identifier tokens of s that are not selected from something (no preceding '.').
+func substIdents(s string, subst map[string]string) string {
+	var b strings.Builder
+	isID := func(c byte) bool {
+		return c == '_' || (c >= 'a' && c <= 'z') || (c >= 'A' && c <= 'Z') || (c >= '0' && c <= '9')
+	}
+	for i := 0; i < len(s); {
+		if isID(s[i]) && !(s[i] >= '0' && s[i] <= '9') {
+			j := i
+			for j < len(s) && isID(s[j]) {
+				j++
+			}
+			tok := s[i:j]
+			if r, ok := subst[tok]; ok && (i == 0 || s[i-1] != '.') {
+				b.WriteString(r)
+			} else {
+				b.WriteString(tok)
+			}
+			i = j
+			continue
+		}
+		b.WriteByte(s[i])
+		i++
+	}
+	return b.String()
 }
 
 // accessPaths returns the variable-rooted selector chains mentioned in e.  The root of
